@@ -81,6 +81,8 @@ fn classify_panic(msg: &str) -> &'static str {
     else { "other" }
 }
 
+static TRACE_FILE: std::sync::OnceLock<Option<String>> = std::sync::OnceLock::new();
+
 /// Output buffer and the case being executed, shared with the watchdog.
 struct State { buf: Vec<u8>, current: Option<(String, std::time::Instant)>, last: Option<std::time::Instant>, prop: String }
 static STATE: std::sync::Mutex<State> = std::sync::Mutex::new(State { buf: Vec::new(), current: None, last: None, prop: String::new() });
@@ -98,6 +100,11 @@ fn flush_locked(st: &mut State) {
 /// run one case under the watchdog and append its output line (whole lines only are ever written)
 fn run_case(line: &str) {
     { let mut st = STATE.lock().unwrap(); st.current = Some((line.to_string(), std::time::Instant::now())); }
+    // crash localisation (second pass of a shard that died): the case about to run is left in a side file,
+    // so that an abort / stack overflow / out-of-memory kill still names its input
+    if let Some(path) = TRACE_FILE.get().and_then(|p| p.as_ref()) {
+        let _ = std::fs::write(path, line.as_bytes());
+    }
     let r = exec_line(line);
     let mut st = STATE.lock().unwrap();
     st.current = None;
@@ -131,6 +138,7 @@ fn start_watchdog() {
 }
 
 fn main() {
+    let _ = TRACE_FILE.set(std::env::var("VERIF_TRACE_FILE").ok());
     panic::set_hook(Box::new(|_| {}));
     let args: Vec<String> = std::env::args().collect();
     start_watchdog();
